@@ -16,6 +16,7 @@ By the homomorphism property of the isogeny and of [h_eff], any term with these 
 equal to clear_h(iso(sswu(u0)) + iso(sswu(u1))) as a value; the typestate part forbids
 using target-curve-only arithmetic on E'.
 """
+import roles
 import exp
 from facts import callee
 from wire import CallGraph
@@ -79,7 +80,8 @@ class A0:
 
     def is_anchor(self, p):
         # the doubling formulas (hard-code a = 0) and the curve coefficient accessors
-        return (p.endswith(' as CurveProjective>::double') or p.endswith('::get_coeff_b'))
+        R = roles.roles(self.fx)
+        return (p.endswith(' as CurveProjective>::double') or p in (R['G1'].get('get_coeff_b'), R['G2'].get('get_coeff_b')))
 
     def witness(self, fn_path):
         if fn_path not in self._memo:
